@@ -15,6 +15,6 @@ CFG = {
         "C09_terms_covered assumes unambiguous framing: no newline in beacon id / scheme / addresses, all participant signatures of one fixed length, uint32 fields, representable instants (C09_framing_caveat shows the bytes are ambiguous otherwise)",
         "events are addressed to the node's own beacon id; protobuf-unreachable shapes are outside the model (as for C08)",
     ],
-    "level_text": "For every packet, store and clock: C09_signed_by_named (a packet changes the store only if its signature verifies, on exactly the bytes messageForSigning writes for the terms being applied, under the key those terms list for metadata.Address, and the sender satisfies the role rule of its packet type); C09_terms_covered / C09_unsigned_fields (the signed bytes determine every proposal term except the participants' keys and the genesis seed, which are not signed); C09_fresh_caveat; C09_partial_addresses / C09_partial_stored_keys. The clause 'a node that already belongs to the group authenticates members against the keys recorded in its current group' is refuted by the faithful model (C09_refuted: reshare proposal keeping a member's address with the attacker's key, F7), and 'only the leader executes' is refuted for nodes listed as leaving (C09_execute_leader_refuted). Both witnesses are replayed on the real Process.Packet with real keys and signatures on every run.",
-    "level_note": "Kernel + vm_compute; no axioms; no law of the signature scheme is assumed. Full statement refuted until F7 is fixed (proposed_fixes/F7.diff). Known witnesses: C09-member-key-substitution-accepted, C09-nonleader-execute-accepted-by-leaver.",
+    "level_text": "For every packet, store and clock: C09_signed_by_named (a packet changes the store only if its signature verifies, on exactly the bytes messageForSigning writes for the terms being applied, under the key those terms list for metadata.Address, and the sender satisfies the role rule of its packet type); C09_terms_covered / C09_unsigned_fields (the signed bytes determine every proposal term except the participants' keys and the genesis seed, which are not signed); C09_fresh_caveat; C09_partial_addresses / C09_partial_stored_keys. Since the fixes of F7 and of the leaver's Execute shortcut: C09_members_authenticate_proposals (a node whose base state carries a group accepts a reshare proposal only if the signature verifies under the key recorded in that group for the sender's address) and C09_execute_leader (only the leader's Execute is obeyed, also by leavers) are proved; the former witnesses are replayed on the real Process.Packet with real keys and signatures on every run as regression cases. Remaining caveat (known finding): a node without any group takes keys and the genesis seed from the packet, and these fields are not signed.",
+    "level_note": "Kernel + vm_compute; no axioms; no law of the signature scheme is assumed. F7 fixed (proposed_fixes/F7.diff applied). Known witness: C09-fresh-node-unsigned-field-altered-packet-accepted. Regression cases: C09-member-key-substitution-accepted, C09-unsigned-field-altered-packet-accepted, C09-nonleader-execute-accepted-by-leaver.",
 }
